@@ -4,7 +4,7 @@
 P="$1"; shift
 if ! git -C /repo diff --quiet; then echo "/repo has local modifications; refusing"; exit 2; fi
 if ! git -C /repo apply "$P" 2>/dev/null; then
-  if ! git -C /repo apply --3way "$P" >/dev/null 2>&1; then echo "PATCH DOES NOT APPLY: $P"; git -C /repo checkout -- . ; git -C /repo reset -q; exit 3; fi
+  if ! git -C /repo apply --3way "$P" >/dev/null 2>&1; then echo "PATCH DOES NOT APPLY: $P"; git -C /repo reset -q --hard HEAD; exit 3; fi
   git -C /repo reset -q
 fi
 for id in "$@"; do
@@ -14,6 +14,6 @@ for id in "$@"; do
   echo "== $id rc=$rc violations=$nv :: $(echo "$out" | grep -m1 'signature:' | cut -c1-220)"
   [ $rc = 2 ] && echo "$out" | grep INCONCLUSIVE | head -3
 done
-git -C /repo checkout -- .
+git -C /repo reset -q --hard HEAD
 git -C /repo status --short | grep -v '^??' | head -3
 rm -rf /verif/replays/*
